@@ -58,8 +58,8 @@ class GateClient(RunnerClient):
         if ev.kind == "call":
             if self.is_callback(ev, "sleeper") or (ev.target is not None and ev.target.kind == "lib" and (ev.target.name or "") in ("time.sleep", "asyncio.sleep")):
                 return (True, failed, flags)
-            if ev.kind == "call" and self.callee_is(ev, "_RetryState._handle_failure"):
-                return (slept, True, flags)
+        if ev.kind == "enter" and self.callee_is(ev, "_RetryState._handle_failure"):
+            return (slept, True, flags)
         return cs
 
     def on_branch(self, ev: Event, cs: Any, branch: bool) -> Any:
